@@ -724,6 +724,11 @@ RangeOkFor(B) == Live =>
                        \/ ImplRange(Cur, lo, hi) = SelectSeq(all, LAMBDA e : InLo(lo, e[1]) /\ InHi(hi, e[1]))
                        \/ KnownRange(lo)
 RangeOk    == RangeOkFor(Bounds)
+StrictRangeOkFor(B) == Live =>           \* the same clause without the allowance for "range_excl_empty"
+                 LET all == AbsAllOf(map) IN
+                 \A lo \in B, hi \in B :
+                    Proper(lo, hi) =>
+                       ImplRange(Cur, lo, hi) = SelectSeq(all, LAMBDA e : InLo(lo, e[1]) /\ InHi(hi, e[1]))
 CursorOkFor(P) == Live => \/ /\ ImplCursorFwd(Cur) = AbsAllOf(map)
                              /\ ImplCursorBack(Cur) = Reverse(AbsAllOf(map))
                              /\ \A k \in P : ImplSeek(Cur, k) = AbsSeekOf(map, k)
